@@ -1310,4 +1310,187 @@ theorem padSort_missing_order [Zero α] (order : List Id) (first : List (Id × M
       refine ⟨a2.trans a1.symm, o2.trans o1.symm, v2.trans v1.symm, ?_, m2.trans m1.symm⟩
       exact (am m' ms' _ hp2).trans (am m ms _ hp1).symm
 
+
+/-! ### other-axis metadata (modelled and compared in the correspondence; not part of `holds`) -/
+
+theorem lookup_append_left {κ : Type} (l l' : List (Id × κ)) (b : Id) (h : b ∈ l.map (·.1)) :
+    (l ++ l').lookup b = l.lookup b := by
+  induction l with
+  | nil => cases h
+  | cons x xs ih =>
+    obtain ⟨k, y⟩ := x
+    by_cases hk : b = k
+    · subst hk; simp [List.lookup]
+    · have hb : (b == k) = false := by simpa using hk
+      simp only [List.cons_append, List.lookup, hb]
+      apply ih
+      simp only [List.map_cons, List.mem_cons] at h
+      exact h.resolve_left hk
+
+theorem lookup_append_right {κ : Type} (l l' : List (Id × κ)) (b : Id) (h : b ∉ l.map (·.1)) :
+    (l ++ l').lookup b = l'.lookup b := by
+  induction l with
+  | nil => rfl
+  | cons x xs ih =>
+    obtain ⟨k, y⟩ := x
+    simp only [List.map_cons, List.mem_cons, not_or] at h
+    have hb : (b == k) = false := by simpa using h.1
+    simp only [List.cons_append, List.lookup, hb]
+    exact ih h.2
+
+theorem lookup_map_pair {κ : Type} (l : List Id) (f : Id → κ) (b : Id) (h : b ∈ l) :
+    (l.map (fun i => (i, f i))).lookup b = some (f b) := by
+  induction l with
+  | nil => cases h
+  | cons x xs ih =>
+    by_cases hk : b = x
+    · subst hk; simp
+    · have hb : (b == x) = false := by simpa using hk
+      simp only [List.map_cons, List.lookup, hb]
+      exact ih ((List.mem_cons.mp h).resolve_left hk)
+
+theorem lookup_none_of_not_mem {κ : Type} (l : List (Id × κ)) (b : Id) (h : b ∉ l.map (·.1)) :
+    l.lookup b = none := by
+  induction l with
+  | nil => rfl
+  | cons x xs ih =>
+    obtain ⟨k, y⟩ := x
+    simp only [List.map_cons, List.mem_cons, not_or] at h
+    have hb : (b == k) = false := by simpa using h.1
+    simp only [List.lookup, hb]
+    exact ih h.2
+
+/-- `first` maps an other-axis ID to the entry of the first operand (in operand order) that has it -/
+theorem scan_lookup (vs : List (View α)) (seen : List Id) (inv inv' : List (Id × Md))
+    (h : scan vs seen inv = .ok inv') (b : Id) :
+    inv'.lookup b = if b ∈ inv.map (·.1) then inv.lookup b
+      else (vs.find? (fun v => v.oids.contains b)).map (fun v => entryOf v b) := by
+  induction vs generalizing seen inv with
+  | nil =>
+    simp only [scan] at h
+    injection h with h
+    subst h
+    split
+    · rfl
+    · rename_i hb
+      rw [lookup_none_of_not_mem _ b hb]; rfl
+  | cons v rest ih =>
+    unfold scan at h
+    split at h
+    · cases h
+    · have := ih _ _ h
+      rw [this]
+      have hids : (inv ++ (v.oids.filter (fun i => !(inv.map (·.1)).contains i)).map
+            (fun i => (i, entryOf v i))).map (·.1) =
+          inv.map (·.1) ++ v.oids.filter (fun i => !(inv.map (·.1)).contains i) := by
+        simp [List.map_append, List.map_map, Function.comp_def]
+      rw [hids]
+      by_cases hb : b ∈ inv.map (·.1)
+      · simp only [List.mem_append, hb, true_or, if_true]
+        exact lookup_append_left _ _ b hb
+      · simp only [hb, if_false, List.mem_append, false_or, List.mem_filter]
+        by_cases hbv : b ∈ v.oids
+        · have hc : (!(inv.map (·.1)).contains b) = true := by simpa using hb
+          have hfresh : b ∈ v.oids.filter (fun i => !(inv.map (·.1)).contains i) :=
+            List.mem_filter.mpr ⟨hbv, hc⟩
+          simp only [hbv, hc, and_self, if_true]
+          rw [lookup_append_right _ _ b hb, lookup_map_pair _ _ b hfresh]
+          simp [hbv]
+        · simp [hbv]
+
+theorem sortIfNeeded_omd_norm [Zero α] (order : List Id) (p : View α) (hn : order.Nodup)
+    (h1 : ∀ b ∈ order, b ∈ p.oids) (h2 : ∀ vec ∈ p.vecs, vec.length = p.oids.length)
+    (h3 : ∀ m, p.omd = some m → m.length = p.oids.length)
+    (p' : View α) (hp : sortIfNeeded order p = .ok p') :
+    normMd p'.omd = normMd (p.omd.map (fun m => order.map (fun b => (lookupBy p.oids m b).getD []))) := by
+  rcases sortIfNeeded_cases order p h1 h2 h3 with ⟨he, hs⟩ | hs
+  · rw [hs] at hp; injection hp with hp; subst hp
+    cases hm : p.omd with
+    | none => rfl
+    | some m =>
+      simp only [Option.map_some]
+      rw [← he, map_lookupBy_self p.oids m [] (he ▸ hn) (h3 m hm).symm]
+  · rw [hs] at hp; injection hp with hp; subst hp
+    exact normMd_idem _
+
+/-- other-axis metadata of an operand after the second loop, up to the constructor's normalisation -/
+theorem padSort_omd_norm [Zero α] (order : List Id) (first : List (Id × Md)) (v : View α)
+    (hn : order.Nodup) (hv : v.WF) (p' : View α) (hp : padSort order first v = .ok p') :
+    normMd p'.omd = normMd (some (order.map (padEntry first v))) := by
+  unfold padSort pad at hp
+  have hc : ∀ b ∈ order, b ∈ v.oids ∨ b ∈ missingOf order v := by
+    intro b hb
+    by_cases h : b ∈ v.oids
+    · exact Or.inl h
+    · exact Or.inr ((mem_missingOf order v b).mpr ⟨hb, h⟩)
+  cases hm : missingOf order v with
+  | cons m ms =>
+    rw [hm] at hp hc
+    rw [padWith_sort_omd order first m ms v hn hv hc p' hp, normMd_idem]
+  | nil =>
+    rw [hm, padWith_nil] at hp
+    rw [hm] at hc
+    have hsub : ∀ b ∈ order, b ∈ v.oids := fun b hb => (hc b hb).resolve_right (by simp)
+    rw [sortIfNeeded_omd_norm order v hn hsub hv.lens hv.omdLen p' hp]
+    have hpe : ∀ b ∈ order, padEntry first v b = (lookupBy v.oids (omdList v) b).getD [] := by
+      intro b hb
+      simp [padEntry, hsub b hb]
+    rw [List.map_congr_left hpe]
+    cases ho : v.omd with
+    | some m => simp [omdList, ho]
+    | none =>
+      simp only [Option.map_none, omdList, ho, Option.getD_none]
+      symm
+      apply normMd_all
+      apply List.all_eq_true.mpr
+      intro x hx
+      obtain ⟨b, _, rfl⟩ := List.mem_map.mp hx
+      rw [lookupBy_replicate]; rfl
+
+theorem concatViews_omd [Zero α] (v0 : View α) (rest : List (View α)) (hwf : ViewsWF (v0 :: rest))
+    (R : View α) (h : concatViews (v0 :: rest) = .ok R) :
+    ∃ first, scan (v0 :: rest) [] [] = .ok first ∧
+      R.omd = normMd (some (R.oids.map (padEntry first v0))) := by
+  unfold concatViews at h
+  cases hs : scan (v0 :: rest) [] [] with
+  | error e => rw [hs] at h; cases h
+  | ok first =>
+    rw [hs] at h
+    simp only at h
+    obtain ⟨_, hnd⟩ := scan_ids (v0 :: rest) [] [] first hs
+    have hnd' : (sortIds (first.map (·.1))).Nodup :=
+      (nodup_sortIds _).mpr (hnd (by simp) (fun v hv => (hwf v hv).2))
+    cases hm : mapE (padSort (sortIds (first.map (·.1))) first) (v0 :: rest) with
+    | error e => rw [hm] at h; cases h
+    | ok padded =>
+      rw [hm] at h
+      injection h with h
+      subst h
+      refine ⟨first, rfl, ?_⟩
+      unfold mapE at hm
+      cases hp0 : padSort (sortIds (first.map (·.1))) first v0 with
+      | error e => rw [hp0] at hm; cases hm
+      | ok p0 =>
+        rw [hp0] at hm
+        simp only at hm
+        cases hr : mapE (padSort (sortIds (first.map (·.1))) first) rest with
+        | error e => rw [hr] at hm; cases hm
+        | ok ps =>
+          rw [hr] at hm
+          injection hm with hm
+          subst hm
+          simp only [List.head?_cons, Option.bind_some]
+          exact padSort_omd_norm _ first v0 hnd' (hwf v0 List.mem_cons_self).1 p0 hp0
+
+theorem entryOf_viewOf (ax : Axis) (t : Table α) (b : Id) : entryOf (viewOf ax t) b = mdEntry t ax.other b := by
+  cases ax <;> (simp only [entryOf, viewOf, mdEntry, Table.mdOf?, Table.md, Table.ids, Axis.other]; split <;> simp_all)
+
+theorem padEntry_self (first : List (Id × Md)) (v : View α) (b : Id) (hb : b ∈ v.oids) :
+    padEntry first v b = entryOf v b := by
+  unfold padEntry entryOf omdList
+  simp only [hb, if_true]
+  cases v.omd with
+  | none => simp [lookupBy_replicate]
+  | some m => rfl
+
 end Biom.C10
